@@ -8,7 +8,7 @@ require (
 )
 
 require (
-	github.com/ElrondNetwork/elrond-go-logger v1.0.4 // indirect
+	github.com/ElrondNetwork/elrond-go-logger v1.0.4
 	github.com/gogo/protobuf v1.3.2 // indirect
 	github.com/mitchellh/mapstructure v1.4.1 // indirect
 )
